@@ -537,6 +537,36 @@ class CheckBase:
         return iter(())
 
 
+def debug_case(check_mod, tier, seed, index):
+    mod = importlib.import_module(check_mod)
+    check = mod.CHECK
+    paths = builds.ensure(check.builds)
+    base = os.path.join(SHM, 'verif-debug-%d' % os.getpid())
+    ctx = Ctx(check, tier, paths, base)
+    orig = ctx.sk.run
+
+    def logged(*a, **kw):
+        kw['want_log'] = True
+        r = orig(*a, **kw)
+        print('--- run argv=%s faults=%s -> %s fired=%s' % (a[2], kw.get('faults'), r.exit_class(), r['fired']))
+        print(r.get('log', ''))
+        print('stderr:', r.get('stderr', b'')[:400])
+        return r
+    ctx.sk.run = logged
+    try:
+        case = check.gen_case(Rng.derive(seed, check.id, tier, index), tier, index)
+        print('case:', json.dumps(brief(case), indent=1)[:3000])
+        out = check.run_case(case, ctx)
+        od = out.to_dict()
+        for v in od['violations']:
+            print('VIOLATION', v['clause'], v['explain'], v['desc'])
+        print({k: od[k] for k in ('runs', 'ref_runs', 'steps', 'faults', 'probes', 'skipped')})
+    finally:
+        ctx.close()
+        shutil.rmtree(base, ignore_errors=True)
+    return 0
+
+
 def main(argv):
     import argparse
     ap = argparse.ArgumentParser()
@@ -546,10 +576,13 @@ def main(argv):
     ap.add_argument('--max-cases', type=int)
     ap.add_argument('--workers', type=int)
     ap.add_argument('--time-cap', type=float)
+    ap.add_argument('--case', type=int, help='run one generated case in-process and print what happened')
     a = ap.parse_args(argv)
     seed = int(os.environ.get('VERIF_SEED', '1'))
     mod = 'checks.' + a.prop.lower()
     sys.path.insert(0, VERIF)
+    if a.case is not None:
+        return debug_case(mod, a.tier, seed, a.case)
     rc = run_check(mod, a.tier, seed, replay=a.replay, max_cases=a.max_cases, workers=a.workers, time_cap=a.time_cap)
     sys.stdout.flush()
     return rc
